@@ -56,6 +56,7 @@ Local Arguments p_slice : simpl never.
 Local Arguments p_in : simpl never.
 Local Arguments p_length : simpl never.
 Local Arguments fetch_fn : simpl never.
+Local Arguments fetch_fn_zero : simpl never.
 Local Arguments make_range : simpl never.
 Local Arguments range_size : simpl never.
 
@@ -349,6 +350,7 @@ Proof.
   rewrite skipn_repeat_all, app_nil_r. cbn.
   destruct st' as [|obj st']; [fin|]. cbn.
   destruct obj; try fin.
+  all: match goal with |- context [fetch_fn_zero ?o ?nm] => destruct (fetch_fn_zero o nm) end; [fin|].
   all: match goal with |- context [fetch_fn ?f ?o ?nm] => destruct (fetch_fn f o nm) as [id|e]; [|fin] end; cbn; call_tail.
 Qed.
 
